@@ -20,7 +20,7 @@ RULE = ("case = expression TREE over the documented grammar (boolean keywords an
         "connectives of different kinds, or an operator alias next to a connective")
 ENUM_SCOPE = ("all trees of depth <= D over 8 leaves x {not,!} x {and,&&} x {or,||}, both renderings (quick D=1, thorough D=2); "
               "malformed token streams: the full list of constructions x leaf choices")
-QUICK = {"examples": 350, "shards": 12, "budget_s": 110}
+QUICK = {"examples": 350, "shards": 12, "budget_s": 200}
 THOROUGH = {"examples": 4000, "shards": 16, "budget_s": 1700}
 ASSUMPTIONS = ["standard precedence (comparison binds tighter than not, not tighter than and, and tighter than or); an alias spelling means exactly "
                "what its canonical spelling means (docs/atom_selection.rst lists them as synonyms)",
@@ -93,21 +93,67 @@ def topology():
                 if prev is not None:
                     top.add_bond(prev, a)
                 prev = a
-    nb = {}
-    for b in top.bonds:
-        nb[b[0].index] = nb.get(b[0].index, 0) + 1
-        nb[b[1].index] = nb.get(b[1].index, 0) + 1
-    attr = []
-    for a in top.atoms:
-        r = a.residue
-        prot = r.name in PROTEIN
-        attr.append({"index": a.index, "n_bonds": nb.get(a.index, 0), "mass": a.element.mass, "resSeq": r.resSeq, "resid": r.index,
-                     "chainid": r.chain.index, "name": a.name, "element": a.element.symbol, "resname": r.name,
-                     "rescode": PROTEIN.get(r.name), "all": True, "none": False, "protein": prot, "water": r.name in WATER,
-                     "backbone": prot and a.name in BACKBONE, "sidechain": prot and a.name not in BACKBONE})
+    attr = _attrs(top)
     pool = {k: sorted({x[k] for x in attr if x[k] is not None}, key=str) for k in list(NUMK) + list(STRK)}
     _TOP.update(top=top, attr=attr, pool=pool)
     return top, attr, pool
+
+
+def _attrs(top):
+    """per-atom attribute table from the public structure of a Topology: positions in the chain > residue > atom walk are the
+    indices (nothing the selection machinery may have cached is consulted)"""
+    pos = {}
+    for ci, ch in enumerate(top.chains):
+        for r in ch.residues:
+            for a in r.atoms:
+                pos[id(a)] = len(pos)
+    order = {id(a): i for i, a in enumerate(top.atoms)}
+    assert all(pos[k] == order[k] for k in pos) and len(pos) == len(order), "harness: residue-wise walk is not the atom order"
+    nb = {}
+    for b in top.bonds:
+        for x in (b[0], b[1]):
+            if id(x) in order:
+                nb[order[id(x)]] = nb.get(order[id(x)], 0) + 1
+    attr = []
+    rindex = {id(r): i for i, r in enumerate(top.residues)}
+    cindex = {id(c): i for i, c in enumerate(top.chains)}
+    for i, a in enumerate(top.atoms):
+        r = a.residue
+        prot = r.name in PROTEIN
+        attr.append({"index": i, "n_bonds": nb.get(i, 0), "mass": a.element.mass, "resSeq": r.resSeq, "resid": rindex[id(r)],
+                     "chainid": cindex[id(r.chain)], "name": a.name, "element": a.element.symbol, "resname": r.name,
+                     "rescode": PROTEIN.get(r.name), "all": True, "none": False, "protein": prot, "water": r.name in WATER,
+                     "backbone": prot and a.name in BACKBONE, "sidechain": prot and a.name not in BACKBONE})
+    return attr
+
+
+EDITS = ["insert-atom", "delete-atom", "add-bond", "rename-atom", "rename-residue", "renumber-residue"]
+WARM = "n_bonds 1 or mass > 14 or resid 3 or residue 5 or name CA or water or chainid 1 or resname ALA or backbone or type C or rescode A"
+
+
+def _edit(top, kind, k):
+    """one in-place edit of a Topology through its public editing calls"""
+    from mdtraj.core import element as _el
+    atoms = list(top.atoms)
+    a = atoms[k % len(atoms)]
+    if kind == "insert-atom":
+        r = a.residue
+        top.insert_atom("CX", _el.carbon, r, index=a.index, rindex=[id(x) for x in r.atoms].index(id(a)))
+    elif kind == "delete-atom":
+        bonded = {id(x) for b in top.bonds for x in (b[0], b[1])}
+        free = [x for x in atoms if id(x) not in bonded]      # (a bonded atom would leave its bonds dangling: not a valid edit)
+        top.delete_atom_by_index(free[k % len(free)].index)
+    elif kind == "add-bond":
+        b = atoms[(k + 7) % len(atoms)]
+        have = {frozenset((id(x[0]), id(x[1]))) for x in top.bonds}
+        if a is not b and frozenset((id(a), id(b))) not in have:
+            top.add_bond(a, b)
+    elif kind == "rename-atom":
+        a.name = "CA" if a.name != "CA" else "CB"
+    elif kind == "rename-residue":
+        a.residue.name = "HOH" if a.residue.name != "HOH" else "ALA"
+    elif kind == "renumber-residue":
+        a.residue.resSeq = 5 if a.residue.resSeq != 5 else 6
 
 
 # ------------------------------------------------------------------------------------------------ trees
@@ -157,6 +203,9 @@ def strategy(draw, tier="quick"):
     case = {"mode": mode, "tree": _tolist(tree)}
     if mode == "malformed":
         case["how"] = draw(st.sampled_from(MALFORMED))
+    elif draw(st.integers(0, 9)) == 0:
+        # the same question on a topology that was selected from before and then edited in place
+        case["edit"] = [[draw(st.sampled_from(EDITS)), draw(st.integers(0, 2000))] for _ in range(draw(st.integers(1, 3)))]
     return case
 
 
@@ -215,6 +264,15 @@ def enumerate_cases(tier):
     for how in MALFORMED:
         for lf in leaves:
             yield {"mode": "malformed", "tree": ["and", lf, leaves[0], 0], "how": how}
+    # every keyword, on a topology edited in place after it had been selected from
+    kw_leaves = leaves + [["cmp", "n_bonds", "==", 4, False, [0, 0, 0]], ["cmp", "n_bonds", ">=", 1, False, [0, 0, 0]],
+                          ["cmp", "resSeq", "==", 5, False, [0, 0, 0]], ["cmp", "chainid", "==", 1, False, [0, 0, 0]],
+                          ["cmp", "element", "==", "C", False, [0, 0, 0]], ["cmp", "rescode", "==", "A", False, [0, 0, 0]],
+                          ["bool", "backbone", [0, 0, 0]], ["bool", "sidechain", [0, 0, 0]]]
+    for kind in EDITS:
+        for k in (9, 764):
+            for lf in kw_leaves:
+                yield {"mode": "min", "tree": lf, "edit": [[kind, k]]}
 
 
 def _depth(t):
@@ -359,6 +417,16 @@ def run_case(case):
     top, attr, _pool = topology()
     t, mode = case["tree"], case["mode"]
     viol, labels = [], ["mode:" + mode]
+    edits = case.get("edit") if mode != "malformed" else None
+    if edits:
+        top = top.copy()
+        for kind, k in edits:
+            # selections made before each edit: whatever they leave behind in the topology must not outlive the edit
+            select_fresh(top, WARM)
+            select_fresh(top, render(t, False, False)[0])
+            _edit(top, kind, k)
+            labels.append("edit:" + kind)
+        attr = _attrs(top)
     if mode == "malformed":
         text = malformed_text(t, case["how"])
         box = select_fresh(top, text)
